@@ -84,9 +84,8 @@ Definition delegate_msgs (vals : list (val * N)) (xs : list N) (d : denom) : lis
   flat_map (fun p => if snd p =? 0 then [] else [MDelegate (fst (fst p)) (d, snd p)])
            (combine vals xs).
 
-Definition execute_bond (w : world) (self sender : addr) (funds : list coin) (k : bond_kind)
-  : result (world * list cmsg) :=
-  do h <- w_hub w;
+Definition execute_bond (w : world) (h : hub) (self sender : addr) (funds : list coin) (k : bond_kind)
+  : result (hub * list cmsg) :=
   let p := h_params h in
   do dispaddr <- hc_disp (h_cfg h);
   check (match k with BkRw => sender =? dispaddr | _ => true end);
@@ -135,10 +134,10 @@ Definition execute_bond (w : world) (self sender : addr) (funds : list coin) (k 
       do r <- deleg payment (map snd vals);
       let dmsgs := delegate_msgs vals (snd r) (fst pay) in
       match k with
-      | BkRw => Some (set_hub w h2, dmsgs)
+      | BkRw => Some (h2, dmsgs)
       | _ =>
           do tok <- (match k with BkB => hc_bsei (h_cfg h2) | _ => hc_stsei (h_cfg h2) end);
-          Some (set_hub w h2, dmsgs ++ [MWasm tok (WCw20 (CMint sender mint)) []])
+          Some (h2, dmsgs ++ [MWasm tok (WCw20 (CMint sender mint)) []])
       end
   end.
 
@@ -189,9 +188,8 @@ Definition maybe_undelegate (w : world) (self : addr) (h : hub) : result (hub * 
   do passed <- sub64 (e_now (w_env w)) (hs_lut (h_state h));
   if hp_epoch (h_params h) <? passed then process_undelegations w self h else Some (h, []).
 
-Definition execute_unbond (w : world) (self : addr) (amount : N) (user : addr)
-  : result (world * list cmsg) :=
-  do h <- w_hub w;
+Definition execute_unbond (w : world) (h : hub) (self : addr) (amount : N) (user : addr)
+  : result (hub * list cmsg) :=
   let p := h_params h in
   do h1 <- slashing w self h;
   let s := h_state h1 in
@@ -212,11 +210,10 @@ Definition execute_unbond (w : world) (self : addr) (amount : N) (user : addr)
   do r <- maybe_undelegate w self h3;
   let '(h4, msgs) := r in
   do tok <- hc_bsei (h_cfg h4);
-  Some (set_hub w h4, msgs ++ [MWasm tok (WCw20 (CBurn amount)) []]).
+  Some (h4, msgs ++ [MWasm tok (WCw20 (CBurn amount)) []]).
 
-Definition execute_unbond_stsei (w : world) (self : addr) (amount : N) (user : addr)
-  : result (world * list cmsg) :=
-  do h <- w_hub w;
+Definition execute_unbond_stsei (w : world) (h : hub) (self : addr) (amount : N) (user : addr)
+  : result (hub * list cmsg) :=
   do h1 <- slashing w self h;
   let cb := h_batch h1 in
   do reqst <- add128 (cb_reqst cb) amount;
@@ -226,7 +223,7 @@ Definition execute_unbond_stsei (w : world) (self : addr) (amount : N) (user : a
   do r <- maybe_undelegate w self h3;
   let '(h4, msgs) := r in
   do tok <- hc_stsei (h_cfg h4);
-  Some (set_hub w h4, msgs ++ [MWasm tok (WCw20 (CBurn amount)) []]).
+  Some (h4, msgs ++ [MWasm tok (WCw20 (CBurn amount)) []]).
 
 (** *** release of matured batches (process_withdraw_rate) *)
 
@@ -324,8 +321,7 @@ Definition finished_amount (h : hub) (u : addr) : result (N * list N) :=
            end)
         (user_waits h u) (0, []).
 
-Definition execute_withdraw (w : world) (self sender : addr) : result (world * list cmsg) :=
-  do h <- w_hub w;
+Definition execute_withdraw (w : world) (h : hub) (self sender : addr) : result (hub * list cmsg) :=
   let p := h_params h in
   do historical <- sub64 (e_now (w_env w)) (hp_unbonding p);
   let hub_balance := bal (w_env w) self (hp_underlying p) in
@@ -338,12 +334,11 @@ Definition execute_withdraw (w : world) (self sender : addr) : result (world * l
   let s := h_state h2 in
   let h3 := set_h_state h2 (mkHubState (hs_ber s) (hs_ser s) (hs_bb s) (hs_bst s) (hs_lim s) prev
                                        (hs_lut s) (hs_lpb s)) in
-  Some (set_hub w h3, [MBank sender [(hp_underlying p, amount)]]).
+  Some (h3, [MBank sender [(hp_underlying p, amount)]]).
 
 (** ** convert.rs *)
-Definition convert_stsei_bsei (w : world) (self : addr) (amount : N) (user : addr)
-  : result (world * list cmsg) :=
-  do h <- w_hub w;
+Definition convert_stsei_bsei (w : world) (h : hub) (self : addr) (amount : N) (user : addr)
+  : result (hub * list cmsg) :=
   do h1 <- slashing w self h;
   let s := h_state h1 in
   let p := h_params h1 in
@@ -369,11 +364,10 @@ Definition convert_stsei_bsei (w : world) (self : addr) (amount : N) (user : add
   do ssup' <- sub128 ssupply amount;
   do ser <- exchange_rate bst ssup' (cb_reqst cb);
   let h2 := set_h_state h1 (set_rates (set_bonded s bb bst) ber ser) in
-  Some (set_hub w h2, [MWasm btok (WCw20 (CMint user mint)) []; MWasm stok (WCw20 (CBurn amount)) []]).
+  Some (h2, [MWasm btok (WCw20 (CMint user mint)) []; MWasm stok (WCw20 (CBurn amount)) []]).
 
-Definition convert_bsei_stsei (w : world) (self : addr) (amount : N) (user : addr)
-  : result (world * list cmsg) :=
-  do h <- w_hub w;
+Definition convert_bsei_stsei (w : world) (h : hub) (self : addr) (amount : N) (user : addr)
+  : result (hub * list cmsg) :=
   do h1 <- slashing w self h;
   let s := h_state h1 in
   let p := h_params h1 in
@@ -397,15 +391,14 @@ Definition convert_bsei_stsei (w : world) (self : addr) (amount : N) (user : add
   do ssup' <- add128 ssupply to_mint;
   do ser <- exchange_rate bst ssup' (cb_reqst cb);
   let h2 := set_h_state h1 (set_rates (set_bonded s bb bst) ber ser) in
-  Some (set_hub w h2, [MWasm stok (WCw20 (CMint user to_mint)) []; MWasm btok (WCw20 (CBurn amount)) []]).
+  Some (h2, [MWasm stok (WCw20 (CMint user to_mint)) []; MWasm btok (WCw20 (CBurn amount)) []]).
 
 (** ** config.rs *)
 Definition opt_or {A} (o : option A) (d : A) : A := match o with Some x => x | None => d end.
 
-Definition execute_update_params (w : world) (sender : addr)
+Definition execute_update_params (h : hub) (sender : addr)
            (epoch unbonding pegfee thr : option N) (pz : option bool) (rdenom : option denom)
-  : result (world * list cmsg) :=
-  do h <- w_hub w;
+  : result (hub * list cmsg) :=
   check sender =? hc_creator (h_cfg h);
   let p := h_params h in
   check (match pegfee with Some f => f <=? D | None => true end);
@@ -413,12 +406,11 @@ Definition execute_update_params (w : world) (sender : addr)
   let p' := mkHubParams (opt_or epoch (hp_epoch p)) (hp_underlying p) (opt_or unbonding (hp_unbonding p))
                         (opt_or pegfee (hp_pegfee p)) (N.min (opt_or thr (hp_thr p)) D)
                         (opt_or rdenom (hp_rdenom p)) pz in
-  Some (set_hub w (set_h_params h p'), []).
+  Some (set_h_params h p', []).
 
-Definition execute_update_config (w : world) (sender : addr)
+Definition execute_update_config (h : hub) (sender : addr)
            (dispa rega bseia stseia airdropa rewardsa updatera : option addr)
-  : result (world * list cmsg) :=
-  do h <- w_hub w;
+  : result (hub * list cmsg) :=
   let c := h_cfg h in
   check sender =? hc_creator c;
   check (match bseia, hc_bsei c with Some _, Some _ => false | _, _ => true end);
@@ -430,7 +422,7 @@ Definition execute_update_config (w : world) (sender : addr)
               (match stseia with Some a => Some a | None => hc_stsei c end)
               (match airdropa with Some a => Some a | None => hc_airdrop c end)
               (match rewardsa with Some a => Some a | None => hc_rewards c end) in
-  Some (set_hub w (set_h_cfg h c'),
+  Some (set_h_cfg h c',
         match dispa with Some a => [MSetWithdrawAddr a] | None => [] end).
 
 (** ** state.rs : legacy wait-list migration *)
@@ -452,9 +444,8 @@ Definition migrate_wait_lists (h : hub) (limit : option N) : hub :=
   end.
 
 (** ** contract.rs : remaining handlers *)
-Definition execute_update_global (w : world) (self sender : addr) (nhooks : N)
-  : result (world * list cmsg) :=
-  do h <- w_hub w;
+Definition execute_update_global (w : world) (h : hub) (self sender : addr) (nhooks : N)
+  : result (hub * list cmsg) :=
   let c := h_cfg h in
   check (sender =? hc_updater c) || opt_eqb (hc_reg c) sender;
   do dispaddr <- hc_disp c;
@@ -467,66 +458,64 @@ Definition execute_update_global (w : world) (self sender : addr) (nhooks : N)
   let dispatch := MWasm dispaddr (WDisp DDispatch) [] in
   let s' := mkHubState (hs_ber s) (hs_ser s) (hs_bb s) (hs_bst s) (e_now (w_env w)) (hs_phb s)
                        (hs_lut s) (hs_lpb s) in
-  Some (set_hub w (set_h_state h s'), hooks ++ wmsgs ++ [swap; dispatch]).
+  Some (set_h_state h s', hooks ++ wmsgs ++ [swap; dispatch]).
 
-Definition receive_cw20 (w : world) (self sender : addr) (user : addr) (amount : N) (hk : hook)
-  : result (world * list cmsg) :=
-  do h <- w_hub w;
+Definition receive_cw20 (w : world) (h : hub) (self sender : addr) (user : addr) (amount : N) (hk : hook)
+  : result (hub * list cmsg) :=
   do b <- hc_bsei (h_cfg h);
   do st <- hc_stsei (h_cfg h);
   match hk with
   | HkJunk => None
   | HkUnbond =>
-      if sender =? b then execute_unbond w self amount user
-      else if sender =? st then execute_unbond_stsei w self amount user
+      if sender =? b then execute_unbond w h self amount user
+      else if sender =? st then execute_unbond_stsei w h self amount user
       else None
   | HkConvert =>
-      if sender =? b then convert_bsei_stsei w self amount user
-      else if sender =? st then convert_stsei_bsei w self amount user
+      if sender =? b then convert_bsei_stsei w h self amount user
+      else if sender =? st then convert_stsei_bsei w h self amount user
       else None
   end.
 
-Definition hub_execute (w : world) (self sender : addr) (funds : list coin) (m : hub_msg)
-  : result (world * list cmsg) :=
-  do h <- w_hub w;
+Definition hub_execute (w : world) (h : hub) (self sender : addr) (funds : list coin) (m : hub_msg)
+  : result (hub * list cmsg) :=
   match m with
   | HMigrate limit =>
-      if paused h then Some (set_hub w (migrate_wait_lists h limit), []) else None
+      if paused h then Some (migrate_wait_lists h limit, []) else None
   | HParams epoch unbonding pegfee thr pz rdenom =>
-      execute_update_params w sender epoch unbonding pegfee thr pz rdenom
+      execute_update_params h sender epoch unbonding pegfee thr pz rdenom
   | _ =>
       check negb (paused h);
       match m with
-      | HReceive user amount hk => receive_cw20 w self sender user amount hk
-      | HBond => execute_bond w self sender funds BkB
-      | HBondSt => execute_bond w self sender funds BkSt
-      | HBondRewards => execute_bond w self sender funds BkRw
-      | HUpdateGlobal n => execute_update_global w self sender n
-      | HWithdraw => execute_withdraw w self sender
-      | HCheckSlashing => do h1 <- slashing w self h; Some (set_hub w h1, [])
-      | HConfig a b c d e f g => execute_update_config w sender a b c d e f g
+      | HReceive user amount hk => receive_cw20 w h self sender user amount hk
+      | HBond => execute_bond w h self sender funds BkB
+      | HBondSt => execute_bond w h self sender funds BkSt
+      | HBondRewards => execute_bond w h self sender funds BkRw
+      | HUpdateGlobal n => execute_update_global w h self sender n
+      | HWithdraw => execute_withdraw w h self sender
+      | HCheckSlashing => do h1 <- slashing w self h; Some (h1, [])
+      | HConfig a b c d e f g => execute_update_config h sender a b c d e f g
       | HSetOwner a =>
           check sender =? hc_creator (h_cfg h);
-          Some (set_hub w (set_h_newowner h a), [])
+          Some (set_h_newowner h a, [])
       | HAccept =>
           check sender =? h_newowner h;
           let c := h_cfg h in
-          Some (set_hub w (set_h_cfg h (mkHubConfig (h_newowner h) (hc_updater c) (hc_disp c) (hc_reg c)
-                                           (hc_bsei c) (hc_stsei c) (hc_airdrop c) (hc_rewards c))), [])
+          Some (set_h_cfg h (mkHubConfig (h_newowner h) (hc_updater c) (hc_disp c) (hc_reg c)
+                                         (hc_bsei c) (hc_stsei c) (hc_airdrop c) (hc_rewards c)), [])
       | HSwapHook tok swapc =>
           check sender =? self;
           do t <- token_at w tok;
           let b := tbal t self in
           check negb (b =? 0);
-          Some (w, [MWasm tok (WCw20 (CSend swapc b HkJunk)) []])
+          Some (h, [MWasm tok (WCw20 (CSend swapc b HkJunk)) []])
       | HClaimAirdrop tok airdropc swapc =>
           do reg <- hc_airdrop (h_cfg h);
           check reg =? sender;
-          Some (w, [MWasm airdropc WOpaque []; MWasm self (WHub (HSwapHook tok swapc)) []])
+          Some (h, [MWasm airdropc WOpaque []; MWasm self (WHub (HSwapHook tok swapc)) []])
       | HRedelProxy src l =>
           do reg <- hc_reg (h_cfg h);
           check sender =? reg;
-          Some (w, map (fun p => MRedelegate src (fst p) (snd p)) l)
+          Some (h, map (fun p => MRedelegate src (fst p) (snd p)) l)
       | HMigrate _ | HParams _ _ _ _ _ _ => None
       end
   end.
